@@ -6,7 +6,7 @@ CONSTANTS
   Framings = {"cl"}
   Kinds = {"ok", "refuse"}
   CutCodes <- Codes_one
-  UpModes = {"free"}
+  UpModes = {"fast"}
   Requests <- Req_c02
   Routes <- Routes_all
   Entries = {"core", "handler"}
